@@ -1,7 +1,6 @@
 package main
 
 import (
-	"strconv"
 	"fmt"
 	"go/types"
 	"sort"
@@ -230,16 +229,27 @@ func checkC30(w *World, r *Run) {
 }
 
 func checkC30Modes(w *World, r *Run, rule string) {
-	fn := w.SSAFunc(relAuthn, "checkAuthentication")
+	// the one place that builds the decoder (since the repair of D9: installAwsChunkDecoder,
+	// shared by the credentialed and the credential-less path)
+	fn := w.SSAFunc(relAuthn, "installAwsChunkDecoder")
+	if fn == nil {
+		fn = w.SSAFunc(relAuthn, "checkAuthentication")
+	}
 	newRC := w.Func(relAuthn, "newAwsChunkReadCloser")
 	if fn == nil || newRC == nil {
-		r.Anchor(rule, "authentication.checkAuthentication / newAwsChunkReadCloser")
+		r.Anchor(rule, "authentication.installAwsChunkDecoder / newAwsChunkReadCloser")
 		return
 	}
 	calls := callsTo(fn, false, func(f *types.Func) bool { return f == newRC })
 	if len(calls) != 1 {
-		r.Bad(rule, "checkAuthentication → newAwsChunkReadCloser", fn.Pos(), fmt.Sprintf("expected one installation, found %d", len(calls)))
+		r.Bad(rule, fn.Name()+" → newAwsChunkReadCloser", fn.Pos(), fmt.Sprintf("expected one installation, found %d", len(calls)))
 		return
+	}
+	// nobody else builds a decoder with flags of its own
+	for _, other := range w.callers[w.Prog.FuncValue(newRC)] {
+		if other.Parent() != fn {
+			r.Bad(rule, funcName(other.Parent())+" → newAwsChunkReadCloser", other.Pos(), "a second construction site of the decoder: its mode flags are not the ones this rule examines")
+		}
 	}
 	c := calls[0]
 	a := c.Common().Args // ctx, inner, timestamp, scope, previousSignature, verifier, hasTrailing, withSig, skip, trailerName
@@ -281,23 +291,92 @@ func checkC30Modes(w *World, r *Run, rule string) {
 		}
 		return false
 	}
-	r.Check(fieldIs(a[2], "timestamp") && fieldIs(a[3], "value") && fieldIs(a[4], "signature"), rule, "decoder seeded with request timestamp, scope and signature", posOf(c), "parameters.timestamp, scope.value, parameters.signature", "the chunk-signature chain is not seeded from the verified request")
-	verified, accepts, chunked := false, false, false
-	for _, f := range factsAt(c.Block()) {
-		cc, _ := callOf(f.Val)
-		if cc == nil || calleeObj(cc) == nil {
-			continue
+	// seeds and guards. Since the repair of D9 the decoder is built by installAwsChunkDecoder
+	// from its own parameters; what matters is what its call sites pass and under which guards
+	newShape := fn.Name() == "installAwsChunkDecoder"
+	if newShape {
+		inOrder := true
+		for i := 2; i <= 5; i++ {
+			if paramIndex(fn, a[i]) != i {
+				inOrder = false
+			}
 		}
-		switch calleeObj(cc).Name() {
-		case "verify":
-			verified = verified || f.Kind == IsTrue
-		case "acceptsStreamingPayload":
-			accepts = accepts || f.Kind == IsTrue
-		case "hasAwsChunkedContentEncoding":
-			chunked = chunked || f.Kind == IsTrue
+		r.Check(inOrder, rule, "installAwsChunkDecoder hands its timestamp, scope, seed signature and verifier to the decoder", posOf(c), "parameters 2–5 in order", "the decoder is not built from the values the caller verified")
+		authFn := w.SSAFunc(relAuthn, "checkAuthentication")
+		sites := 0
+		for _, site := range w.callers[fn] {
+			sc, ok := site.(*ssa.Call)
+			if !ok {
+				continue
+			}
+			sites++
+			sa := sc.Call.Args
+			switch site.Parent() {
+			case authFn:
+				r.Check(fieldIs(sa[2], "timestamp") && fieldIs(sa[3], "value") && fieldIs(sa[4], "signature"), rule, "decoder seeded with request timestamp, scope and signature", posOf(sc), "parameters.timestamp, scope.value, parameters.signature", "the chunk-signature chain is not seeded from the verified request")
+				verified, accepts, chunked := false, false, false
+				for _, f := range factsAt(sc.Block()) {
+					cc, _ := callOf(f.Val)
+					if cc == nil || calleeObj(cc) == nil {
+						continue
+					}
+					switch calleeObj(cc).Name() {
+					case "verify":
+						verified = verified || f.Kind == IsTrue
+					case "acceptsStreamingPayload":
+						accepts = accepts || f.Kind == IsTrue
+					case "hasAwsChunkedContentEncoding":
+						chunked = chunked || f.Kind == IsTrue
+					}
+				}
+				r.Check(verified && accepts && chunked, rule, "decoder installed only for aws-chunked bodies of verified requests whose verifier accepts the mode", posOf(sc), "verify ∧ acceptsStreamingPayload ∧ hasAwsChunkedContentEncoding", fmt.Sprintf("guards: verified=%v accepts=%v chunked=%v", verified, accepts, chunked))
+			default:
+				// a request without credentials: only the unsigned streaming forms can be decoded
+				// (no key to verify chunk signatures with) — a chunk-signed form must not be
+				// accepted unverified
+				unsignedOnly := everyPathEstablishes(sc.Block(), func(f Fact) bool {
+					if f.Kind != EqConst || f.Const == nil {
+						return false
+					}
+					sv, ok := constString(f.Const)
+					return ok && strings.Contains(sv, "UNSIGNED") && strings.HasPrefix(sv, "STREAMING-")
+				})
+				chunked := false
+				for _, f := range factsAt(sc.Block()) {
+					if cc, _ := callOf(f.Val); cc != nil && calleeObj(cc) != nil && calleeObj(cc).Name() == "hasAwsChunkedContentEncoding" && f.Kind == IsTrue {
+						chunked = true
+					}
+				}
+				r.Check(unsignedOnly && chunked, rule, funcName(site.Parent())+": credential-less decoding only of unsigned streaming payloads", posOf(sc), "content-sha256 ∈ STREAMING-UNSIGNED-PAYLOAD[-TRAILER] ∧ aws-chunked", "without credentials a chunk-signed payload form reaches the decoder (its chunk signatures cannot be verified), or a body that is not aws-chunked is decoded")
+			}
 		}
+		if sites < 2 {
+			r.Bad(rule, "installAwsChunkDecoder call sites", fn.Pos(), fmt.Sprintf("expected the credentialed and the credential-less call site, found %d", sites))
+		}
+		if authFn == nil {
+			return
+		}
+		fn = authFn // the return rule below is about checkAuthentication
 	}
-	r.Check(verified && accepts && chunked, rule, "decoder installed only for aws-chunked bodies of verified requests whose verifier accepts the mode", posOf(c), "verify ∧ acceptsStreamingPayload ∧ hasAwsChunkedContentEncoding", fmt.Sprintf("guards: verified=%v accepts=%v chunked=%v", verified, accepts, chunked))
+	if !newShape {
+		r.Check(fieldIs(a[2], "timestamp") && fieldIs(a[3], "value") && fieldIs(a[4], "signature"), rule, "decoder seeded with request timestamp, scope and signature", posOf(c), "parameters.timestamp, scope.value, parameters.signature", "the chunk-signature chain is not seeded from the verified request")
+		verified, accepts, chunked := false, false, false
+		for _, f := range factsAt(c.Block()) {
+			cc, _ := callOf(f.Val)
+			if cc == nil || calleeObj(cc) == nil {
+				continue
+			}
+			switch calleeObj(cc).Name() {
+			case "verify":
+				verified = verified || f.Kind == IsTrue
+			case "acceptsStreamingPayload":
+				accepts = accepts || f.Kind == IsTrue
+			case "hasAwsChunkedContentEncoding":
+				chunked = chunked || f.Kind == IsTrue
+			}
+		}
+		r.Check(verified && accepts && chunked, rule, "decoder installed only for aws-chunked bodies of verified requests whose verifier accepts the mode", posOf(c), "verify ∧ acceptsStreamingPayload ∧ hasAwsChunkedContentEncoding", fmt.Sprintf("guards: verified=%v accepts=%v chunked=%v", verified, accepts, chunked))
+	}
 	// every successful return with isAwsChunked true passed the installation: the authenticated return is after it
 	okAll := true
 	for _, ret := range returnsOf(fn) {
@@ -348,50 +427,46 @@ func checkC30Install(w *World, r *Run, rule string) {
 			})
 		}
 	}
-	// (1) in SetupServer every installer middleware is applied unconditionally
-	uncond := false
-	cond := ""
-	condDesc := ""
-	allInstrs(setup, false, func(_ *ssa.Function, ins ssa.Instruction) {
+	// (1) every path through SetupServer applies a middleware that installs the decoder
+	isInstaller := func(ins ssa.Instruction) bool {
 		c, ok := ins.(ssa.CallInstruction)
 		if !ok {
-			return
+			return false
 		}
 		sc := c.Common().StaticCallee()
 		if sc == nil {
-			return
+			return false
 		}
-		inst := reaches[sc]
+		if reaches[sc] {
+			return true
+		}
 		for _, a := range sc.AnonFuncs {
 			if reaches[a] {
-				inst = true
+				return true
 			}
 		}
-		if !inst {
-			return
+		return false
+	}
+	nInst := 0
+	allInstrs(setup, false, func(_ *ssa.Function, ins ssa.Instruction) {
+		if isInstaller(ins) {
+			nInst++
 		}
-		fs := factsAt(c.Block())
-		if len(fs) == 0 {
-			uncond = true
-			return
-		}
-		cond = w.Pos(posOf(c))
+	})
+	escapes := sinksReachable(setup.Blocks[0].Instrs[0], isInstaller, nil, func(i ssa.Instruction) bool {
+		_, isRet := i.(*ssa.Return)
+		return isRet
+	})
+	if isInstaller(setup.Blocks[0].Instrs[0]) {
+		escapes = nil
+	}
+	condDesc := ""
+	if len(escapes) > 0 {
 		var parts []string
-		for _, f := range fs {
+		for _, f := range factsAt(escapes[0].Block()) {
 			d := describeVal(f.Val)
 			if i := paramIndex(setup, f.Val); i >= 0 {
 				d = setup.Params[i].Name()
-			}
-			if b, ok := f.Val.(*ssa.BinOp); ok {
-				x := describeVal(b.X)
-				if isLenOf(b.X, func(v ssa.Value) bool { return paramIndex(setup, v) >= 0 }) {
-					x = "len(" + setup.Params[paramIndex(setup, b.X.(*ssa.Call).Call.Args[0])].Name() + ")"
-				}
-				y := describeVal(b.Y)
-				if k, isC := intConst(b.Y); isC {
-					y = strconv.FormatInt(k, 10)
-				}
-				d = x + " " + b.Op.String() + " " + y
 			}
 			switch f.Kind {
 			case NonNil:
@@ -405,12 +480,15 @@ func checkC30Install(w *World, r *Run, rule string) {
 		}
 		sort.Strings(parts)
 		condDesc = strings.Join(parts, " && ")
-	})
-	consInst := "SetupServer: aws-chunked decoder installed on every configuration"
-	if !uncond && condDesc != "" {
-		consInst = "SetupServer: aws-chunked decoder installed only where " + condDesc
+		if condDesc == "" {
+			condDesc = "some configuration"
+		}
 	}
-	r.Check(uncond, rule, consInst, setup.Pos(), "unconditional middleware", "the only installer of the decoder ("+cond+") is applied only where "+condDesc+": in every other configuration an aws-chunked body is stored with its chunk framing, unverified")
+	consInst := "SetupServer: aws-chunked decoder installed on every configuration"
+	if len(escapes) > 0 {
+		consInst = "SetupServer: no aws-chunked decoder installed where " + condDesc
+	}
+	r.Check(nInst > 0 && len(escapes) == 0, rule, consInst, setup.Pos(), fmt.Sprintf("%d installer(s), every path to the return applies one", nInst), "a path through SetupServer returns the handler without any middleware that installs the decoder ("+condDesc+"): in that configuration an aws-chunked body is stored with its chunk framing, unverified")
 	// (2) inside the signature middleware every forward is preceded by an installer call
 	cl := mk.AnonFuncs[0]
 	allFwd := true
